@@ -3,7 +3,6 @@ package bind
 import (
 	"errors"
 	"fmt"
-	"io"
 	"net"
 	"reflect"
 	"runtime/debug"
@@ -38,6 +37,7 @@ type probe struct {
 	typ     *typeSpec
 	want    reflect.Value // struct value to compare with; invalid = no comparison
 	outKind int
+	send    *sendSpec // how the client is given the value (nil = the struct setters)
 
 	// results
 	ran      bool
@@ -236,14 +236,30 @@ func (r *rig) roundTrip(p *probe) *outcome {
 	val := p.want.Interface()
 	var resp *client.Response
 	var err error
+	if p.send != nil && p.send.mode != sendStruct && p.src.isText() {
+		resp, err = r.sendPieces(req, p)
+		if err != nil {
+			o.sendErr = err.Error()
+			client.ReleaseRequest(req)
+			return o
+		}
+		o.status = resp.StatusCode()
+		resp.Close()
+		return o
+	}
 	switch p.src {
 	case sQuery:
 		resp, err = req.SetParamsWithStruct(val).Get(rigURL)
 	case sForm:
 		resp, err = req.SetFormDataWithStruct(val).Post(rigURL)
 	case sMultipart:
-		req.SetFormDataWithStruct(val)
-		req.AddFileWithReader("w.txt", io.NopCloser(strings.NewReader("file-content")))
+		if p.send != nil && p.send.fileFirst {
+			attachFiles(req, p.send)
+			req.SetFormDataWithStruct(val)
+		} else {
+			req.SetFormDataWithStruct(val)
+			attachFiles(req, p.send)
+		}
 		resp, err = req.Post(rigURL)
 	case sHeader:
 		for i := range p.typ.Fields {
